@@ -8,7 +8,7 @@ is read off its token regex.  Engine: fst (all strings); the extracted transduce
 real functions on every run."""
 import ast, re, itertools
 import z3
-from vlib import repo, lrtab, codec, pysym
+from vlib import repo, lrtab, codec, pysym, lexmodel
 from vlib.core import PROVED, FAILED, UNDECIDED, Bounded, CheckerError
 from vlib.fst import Fst, Dfa, FstError, regex_dfa, equivalent, validate
 from contracts import codecs
@@ -413,23 +413,26 @@ def identifiers(rep, dname):
             rep.failed(oid, 'fst', f'witness {r[1]!r}', function=fn, clause=clause, replay=replay_ident_decode(dname, r[1]))
         else:
             rep.undecided(oid, 'fst', r[1], function=fn)
-    # encode: a single part
-    noq = idmod.no_wrap_identifier_regex.pattern
-    plainword = regex_dfa(noq, 0, ALPHABET)
-    nonword = plainword.complement()
-    regions = {
-        'needs-quotes': nonword.minus(codecs.containing(BT)).intersect(Dfa.plus_any(ALPHABET)),
-        'contains-backquote': codecs.containing(BT),
-    }
+    # encode: a single part. The quoting decision is read off the AST of parts_to_str (guard fragment of vlib/lexmodel.guard_dfa)
     Wrap = Fst.wrap(ALPHABET, BT, BT)
     fdp = repo.find_function('mindsdb_sql.parser.ast.select.identifier', 'Identifier.parts_to_str')
-    src = ast.unparse(fdp) if fdp else ''
-    if "f'`{part}`'" not in src or 'no_wrap_identifier_regex.fullmatch(part)' not in src:
-        rep.undecided(f'C04.ident.enc.{dname}', 'fst', 'parts_to_str no longer quotes with f"`{part}`" under the fullmatch/reserved guard: contract needs review', function=fn)
+    guard, why_not = quoting_guard(fdp)
+    if guard is None:
+        rep.undecided(f'C04.ident.enc.{dname}', 'fst', f'parts_to_str is outside the quoting-guard fragment ({why_not}): contract needs review', function=fn)
         return
+    try:
+        quoted_lang = lexmodel.guard_dfa(guard, 'part', _resolver(fdp), ALPHABET)
+        quoted_big = lexmodel.guard_dfa(guard, 'part', _resolver(fdp), lexmodel.ALPHABET)
+    except FstError as e:
+        rep.undecided(f'C04.ident.enc.{dname}', 'fst', f'quoting guard of parts_to_str is outside the fragment ({e}): contract needs review', function=fn)
+        return
+    regions = {
+        'needs-quotes': quoted_lang.minus(codecs.containing(BT)).intersect(Dfa.plus_any(ALPHABET)),
+        'contains-backquote': quoted_lang.intersect(codecs.containing(BT)),
+    }
     for rname, R in regions.items():
         oid = f'C04.ident.enc.{dname}.{rname}'
-        clause = 'forall parts in region (quoted because not a plain word): `part` is exactly one ID token denoting part'
+        clause = 'forall parts in region (quoted by the guard of parts_to_str): `part` is exactly one ID token denoting part'
         E = Wrap.on_domain(R)
         v = bad_inputs(E, L.complement())
         why = None
@@ -443,6 +446,80 @@ def identifiers(rep, dname):
             rep.proved(oid, 'fst', 'whole region', function=fn, clause=clause)
         else:
             rep.failed(oid, 'fst', f'shortest witness part {v!r}: {why}', function=fn, clause=clause, replay=replay_encode(dname, lambda x: Identifier(parts=[x]), v, 'ident'))
+    # parts the guard leaves bare: token-level model of the real lexer class (first matching alternative of the master regex, \\b exact)
+    M = lexmodel.token_model(d.Lexer)
+    BA = lexmodel.ALPHABET
+    bare = quoted_big.complement().intersect(Dfa.plus_any(BA))
+    id_alts = {p.prod[0] for p in d.prods[1:] if p.name == 'id' and len(p.prod) == 1}
+    classes = M.region_report(bare)
+    bq = bare.intersect(Dfa.star_any(BA).concat(Dfa.literal(BA, BT)).concat(Dfa.star_any(BA))).witness()
+    clause = 'forall parts the guard prints bare: the dialect lexer reads the text as exactly one token, ID or a keyword the `id` rule accepts, spanning the whole text'
+    if M.unmodelled:
+        rep.undecided(f'C04.ident.enc.{dname}.bare', 'fst', f'token rules outside the regex fragment: {M.unmodelled[:3]}', function=fn)
+        return
+    # the model against the real master regex: all short words over a probe alphabet + every class witness and its neighbours
+    probe = [''.join(t) for k in range(1, 4) for t in itertools.product("aS0_$`. -'é@(", repeat=k)]
+    for (tok, how), w in classes.items():
+        probe += [w, w + '$', w + 'a', w + ' ', w.upper(), w.lower()]
+    dis = M.validate(probe)
+    if dis:
+        raise CheckerError(f'token model disagrees with {d.lexer_class_name}._master_re on {dis[:3]}')
+    short = [w for w in probe if bare.accepts(w) and M.classify(w) == ('ID', True) and M.real(w) != ('ID', True)]
+    if bq is not None:
+        rep.failed(f'C04.ident.enc.{dname}.bare.backquote', 'fst', f'the part {bq!r} contains a back-quote and is printed bare', function=fn, clause=clause,
+                   replay=replay_encode(dname, lambda x: Identifier(parts=[x]), bq, 'ident'))
+    for (tok, how), w in sorted(classes.items()):
+        oid = f'C04.ident.enc.{dname}.bare.{tok}' + ('' if how == 'whole' else '.prefix')
+        if how == 'whole' and (tok == 'ID' or tok in id_alts):
+            rep.proved(oid, 'fst', f'bare parts first matched by {tok} over their whole text (e.g. {w!r}) are one name token' + (f'; preferred match is the whole text on {len(probe)} probe words' if tok == 'ID' else ''),
+                       function=fn, clause=clause)
+        else:
+            what = f'is read as token {tok}' + ('' if how == 'whole' else ' followed by more tokens') if not tok.startswith('<') else ('matches no token rule' if tok == '<none>' else 'starts with an ignored character')
+            rep.failed(oid, 'fst', f'the part {w!r} is printed bare and {what}', function=fn, clause=clause,
+                       replay=replay_encode(dname, lambda x: Identifier(parts=[x]), w, 'ident'))
+    if short:
+        rep.failed(f'C04.ident.enc.{dname}.bare.ID.preferred', 'fst', f'{short[0]!r}: the ID rule can span the text but its preferred match is shorter', function=fn, clause=clause,
+                   replay=replay_encode(dname, lambda x: Identifier(parts=[x]), short[0], 'ident'))
+
+
+def quoting_guard(fdp):
+    """the test of the single `if <test>: part = f'`{part}`'` of parts_to_str, or (None, reason)"""
+    if fdp is None:
+        return None, 'function not found'
+    hits = []
+    for n in ast.walk(fdp):
+        if isinstance(n, ast.If):
+            for st in n.body:
+                if isinstance(st, ast.Assign) and isinstance(st.value, ast.JoinedStr) and any(isinstance(v, ast.Constant) and BT in str(v.value) for v in st.value.values):
+                    hits.append((n, st))
+    if len(hits) != 1:
+        return None, f'{len(hits)} quoting statements'
+    n, st = hits[0]
+    if ast.unparse(st) != "part = f'`{part}`'" or len(n.body) != 1 or n.orelse:
+        return None, f'quoting statement is `{ast.unparse(st)[:50]}` / has other branches'
+    # no other rewriting of `part` on the non-Star path
+    others = [x for x in ast.walk(fdp) if isinstance(x, ast.Assign) and any(isinstance(t, ast.Name) and t.id == 'part' for t in x.targets) and x is not st]
+    if [ast.unparse(x) for x in others] != ['part = str(part)']:
+        return None, f'other assignments to part: {[ast.unparse(x)[:40] for x in others]}'
+    return n.test, None
+
+
+def _resolver(fdp):
+    from mindsdb_sql.parser.ast.select import identifier as idmod
+    local_calls = {}
+    for x in ast.walk(fdp):
+        if isinstance(x, ast.Assign) and len(x.targets) == 1 and isinstance(x.targets[0], ast.Name) and isinstance(x.value, ast.Call) \
+                and isinstance(x.value.func, ast.Name) and not x.value.args and not x.value.keywords:
+            local_calls[x.targets[0].id] = x.value.func.id
+
+    def resolve(node):
+        if isinstance(node, ast.Name):
+            if node.id in local_calls:
+                return getattr(idmod, local_calls[node.id])()
+            if hasattr(idmod, node.id):
+                return getattr(idmod, node.id)
+        raise FstError(f'cannot resolve {ast.unparse(node)[:40]}')
+    return resolve
 
 
 def replay_ident_decode(dname, w='`a.B`'):
